@@ -181,6 +181,7 @@ def check(run):
                 chunk = cuts[j:j + 64]
                 lines.append("rdc %s %s %s" % (kind, data.hex(), ",".join(map(str, chunk))))
                 metas.append((data, pre, blocks, hdr_end, ends, chunk))
+    sticky_reader(run, rng, fl, seen, quick)
     import time as _t; _t0 = _t.time()
     answers = G.run_rd(lines)
     run.count('seconds:library on cuts', int(_t.time() - _t0))
@@ -244,6 +245,47 @@ def check(run):
                     lfull = G.run_rd(["rd s %s %d" % (data.hex(), n)])[0]
                     run.model_fail.append(("blkc1 %s %d" % (data.hex()[:3000], n), {"correspondence": "Model.File.readBlock loop vs CdnsReader on a truncated file",
                                            "cut": n, "file bytes": len(data), "model": (mfull or "")[:600], "library": (lfull or "")[:600]}))
+
+
+def sticky_reader(run, rng, fl, seen, quick):
+    """the application goes on calling read_block() after the end of a truncated input was reported: every further call must
+    report it again - never a block, never a clean end of file - for the exporter's layout (indefinite block array) and for the
+    same file with a definite-length block array (another writer's layout: the reader then counts blocks)"""
+    import re
+    lines, metas = [], []
+    for data, _ in [f for f in fl if len(f[0]) < 40000][:(3 if quick else 8)]:
+        try:
+            top, _e = cborgen.parse(data)
+            top.children[2].indef = False
+            definite = cborgen.encode(top)
+        except Exception:
+            continue
+        for variant, d in (("indefinite", data), ("definite", definite)):
+            hdr_end, ends = boundaries(d)
+            cuts = set()
+            for c in [hdr_end] + ends:
+                for dd in (-2, -1, 0, 1, 3):
+                    if 0 < c + dd < len(d):
+                        cuts.add(c + dd)
+            for _ in range(25 if quick else 200):
+                cuts.add(rng.randrange(1, len(d)))
+            for n in sorted(cuts):
+                lines.append("rd %s+ %s %d" % ("sf"[n & 1], d.hex(), n)); metas.append((variant, len(d), n, hdr_end))
+    for (variant, size, n, hdr_end), line, a in zip(metas, lines, G.run_rd(lines)):
+        run.case(("sticky", variant, size, n), True); run.count("reader goes on after the end: " + variant)
+        tail = re.findall(r" \+(\S+)", a or "")
+        first = re.search(r" (E:\w+)(?: \+|$)", a or "")
+        if n < hdr_end:
+            ok = a == "I  E:end"           # the constructor threw: there is no reader to go on with
+        else:
+            ok = a is not None and first is not None and first.group(1) == "E:end" and len(tail) >= 3 and all(t == "E:end" for t in tail)
+        if not ok:
+            sig = "sticky:" + variant + ":" + ("eof" if "EOF" in tail else "block" if "B" in tail else "other")
+            if sig not in seen:
+                seen.add(sig)
+                run.spec_fail.append((sig, line[:6000], {"cut": n, "file bytes": size, "block array": variant,
+                                                         "implementation (first exception, then the further calls)": (a or "")[-300:],
+                                                         "expected": "E:end, and E:end again for every further read_block()"}))
 
 
 def replay(run, data):
